@@ -1,6 +1,8 @@
 /-
   C03 — Order-preserving kinds assign IDs in lexicographic (unsigned byte) order.
 -/
+import CSD.Generated.Bodies
+import CSD.Model.SourceText
 import CSD.Lemmas.PFCMeta
 import CSD.Lemmas.RPDAC2
 
@@ -88,5 +90,24 @@ example : RPDAC.Represents { g := { terminals := 99, rules := [(97, 98)] }, seqs
     | n + 2 => simp at h1; omega
 
 example : validDict [[0x61], [0x62]] = true ∧ scmp [0x61] [0x62] < 0 := by decide
+
+/-- The models this file's theorems are about were written against the current text of the C++
+functions they mirror (`CSD/Generated/Bodies.lean` is re-extracted from the sources on every run,
+`CSD/Model/SourceText.lean` is what was reviewed): an edit of one of these functions breaks this
+obligation even if no generated input tells the behaviours apart. -/
+theorem models_match_source_text :
+    Generated.body_PFC_ctor = SourceText.body_PFC_ctor ∧
+    Generated.body_PFC_locate = SourceText.body_PFC_locate ∧
+    Generated.body_PFC_locateBucket = SourceText.body_PFC_locateBucket ∧
+    Generated.body_PFC_getHeader = SourceText.body_PFC_getHeader ∧
+    Generated.body_PFC_decodeNextString = SourceText.body_PFC_decodeNextString ∧
+    Generated.body_PFC_extract = SourceText.body_PFC_extract ∧
+    Generated.body_RPDAC_locate = SourceText.body_RPDAC_locate ∧
+    Generated.body_RPDAC_extract = SourceText.body_RPDAC_extract ∧
+    Generated.body_RePair_compareDAC = SourceText.body_RePair_compareDAC ∧
+    Generated.body_RePair_compareRule = SourceText.body_RePair_compareRule ∧
+    Generated.body_RePair_expandRule = SourceText.body_RePair_expandRule ∧
+    Generated.body_DAC_VLS_access = SourceText.body_DAC_VLS_access ∧
+    Generated.body_DAC_VLS_access_next = SourceText.body_DAC_VLS_access_next := ⟨rfl, rfl, rfl, rfl, rfl, rfl, rfl, rfl, rfl, rfl, rfl, rfl, rfl⟩
 
 end CSD.Props.C03
